@@ -53,7 +53,7 @@ def tla_set(names):
 
 
 def write_cfg(ctx, name, template_cfg, subst):
-    """Copy spec/<template_cfg> to spec/<generated name> with CONSTANT lines replaced (key = value)."""
+    """Copy spec/<template_cfg> into the scratch directory with CONSTANT lines replaced (key = value)."""
     text = open(os.path.join(vlib.SPEC, template_cfg)).read()
     for k, v in subst.items():
         text, n = re.subn(r"(?m)^(\s*%s\s*(?:=|<-)\s*).*$" % re.escape(k), lambda m: m.group(1) + v, text)
@@ -61,19 +61,14 @@ def write_cfg(ctx, name, template_cfg, subst):
             raise vlib.MachineryError("cfg %s: constant %s not found" % (template_cfg, k))
     if not name.endswith(".cfg"):
         name += ".cfg"
-    out = os.path.join(vlib.SPEC, ".gen_%s_%d_%s" % (ctx.pid, os.getpid(), name))
+    out = ctx.path("gen_" + name)        # TLC takes an absolute -config path; nothing generated is left under spec/
     with open(out, "w") as f:
         f.write(text)
-    ctx._gen_cfgs = getattr(ctx, "_gen_cfgs", []) + [out]
-    return os.path.basename(out)
+    return out
 
 
 def cleanup_cfgs(ctx):
-    for p in getattr(ctx, "_gen_cfgs", []):
-        try:
-            os.unlink(p)
-        except OSError:
-            pass
+    pass        # generated configs live in the run's scratch directory
 
 
 def triples(flat):
